@@ -25,7 +25,11 @@
 (* set of (schedule, outcome) pairs the design admits.                     *)
 (* Time: seconds of the mock clock since the previous template was made;   *)
 (* tips: number of blocks connected since then (0 = the previous           *)
-(* template's parent).                                                     *)
+(* template's parent).  Fees are WIDE values [q, r] = q * 10^9 + r         *)
+(* satoshi (TLC's integers are 32 bit and an overflow is an error): the    *)
+(* previous template's total may lie below 2^31, in [2^31, 2^32) or above  *)
+(* 2^32 satoshi, and "fees >= previous fees + threshold" is decided on     *)
+(* exact sums.                                                             *)
 (***************************************************************************)
 EXTENDS Integers, Sequences, FiniteSets, TLC, VF
 CONSTANTS MaxOps,          \* operations of a schedule
@@ -34,7 +38,7 @@ CONSTANTS MaxOps,          \* operations of a schedule
           Timeouts,        \* timeouts in seconds; Inf = none
           Thresholds,      \* fee thresholds; MaxMoney = tip changes only
           Ages,            \* age of the tip (its block time) when the previous template is made
-          PrevFees,        \* fees of the previous template (= of the mempool at the start)
+          PrevFeeSet,      \* classes of the previous template's total fees (= of the mempool at the start), wide values
           AddFee,
           Strict,          \* TRUE: exactly what the code does. FALSE: where the property is silent the model admits every choice: the fee /
                            \* 20-minute check may run at any moment (not only when a tick or the deadline expires) and with the current
@@ -50,23 +54,36 @@ MaxMoney == 999999999
 Twenty == 1200
 TickLen == 1
 Min(a, b) == IF a < b THEN a ELSE b
-Ev(e, a, b, c) == [e |-> e, a |-> a, b |-> b, c |-> c]
+\* ---- wide amounts
+WB == 1000000000
+W(q, r) == [q |-> q, r |-> r]
+WOf(n) == [q |-> n \div WB, r |-> n % WB]                      \* |n| < 2^31
+WZero == W(0, 0)
+WAdd(a, b) == LET x == a.r + b.r IN [q |-> a.q + b.q + x \div WB, r |-> x % WB]
+WLe(a, b) == a.q < b.q \/ (a.q = b.q /\ a.r <= b.r)
+WGe(a, b) == WLe(b, a)
+\* fee classes of the previous template: an ordinary one; 2^31 - 500 and 2^32 - 500 (one 1000-satoshi addition crosses the
+\* boundary); 22 BTC (in [2^31, 2^32)); 45 BTC (above 2^32)
+PFSmall == {W(0, 700)}
+PFWide == {W(2, 147483148), W(2, 200000000), W(4, 294966796), W(4, 500000000)}
+PFAll == PFSmall \cup PFWide
+Ev(e, a, b, c) == [e |-> e, a |-> a, b |-> b, c |-> c]           \* c: a wide amount
 OpSet == {[k |-> x, d |-> 0] : x \in OpKinds \cap {"tip", "int"}}
          \cup (IF "add" \in OpKinds THEN {[k |-> "add", d |-> AddFee]} ELSE {})
          \cup (IF "tick" \in OpKinds THEN {[k |-> "tick", d |-> x] : x \in TickAmounts} ELSE {})
          \cup (IF AllowInvalidate THEN {[k |-> "inv", d |-> 0]} ELSE {})
 NoOp == [k |-> "none", d |-> 0]
-NoRet == [kind |-> "none", parent |-> 0, fees |-> 0]
+NoRet == [kind |-> "none", parent |-> 0, fees |-> WZero]
 
 (* --algorithm WaitNext {
   variables
-    timeout \in Timeouts, threshold \in Thresholds, age \in Ages,
+    timeout \in Timeouts, threshold \in Thresholds, age \in Ages, prevFees \in PrevFeeSet,
     ncall = 0,
     clock = 0,
     activeTip = 0,            \* tip of the active chain (guarded by cs_main)
     tipTime = 0 - age,        \* its block time
     tipNotified = 0,          \* KernelNotifications: tip block of the last blockTip notification (guarded by m_tip_block_mutex)
-    mfees = PrevFees,         \* total fees of the template the mempool yields (guarded by cs_main)
+    mfees = prevFees,         \* total fees of the template the mempool yields (guarded by cs_main)
     interrupt = FALSE,        \* m_interrupt_wait
     envHolds = FALSE,         \* cs_main is held by the block-connecting thread
     hist = <<>>,              \* the harness log
@@ -82,7 +99,7 @@ NoRet == [kind |-> "none", parent |-> 0, fees |-> 0]
   fair process (waiter = "w")
     variables now = 0, deadline = 0, tipChanged = FALSE;
   {
-   s0: hist := Append(hist, Ev("S", 0, 0, 0));
+   s0: hist := Append(hist, Ev("S", 0, 0, WZero));
        ret := NoRet; nullWhy := "none"; trig := -1;
    w0: now := clock;
        deadline := IF timeout = Inf THEN Inf ELSE clock + timeout;
@@ -92,13 +109,13 @@ NoRet == [kind |-> "none", parent |-> 0, fees |-> 0]
        trig := tipNotified;
        with (stop \in IF ~interrupt THEN {FALSE} ELSE IF Strict \/ tipNotified = 0 THEN {TRUE} ELSE {TRUE, FALSE}) {
          if (stop) {
-           interrupt := FALSE; ret := [kind |-> "null", parent |-> 0, fees |-> 0]; nullWhy := "interrupt";
+           interrupt := FALSE; ret := [kind |-> "null", parent |-> 0, fees |-> WZero]; nullWhy := "interrupt";
            goto r0;
          };
        };
    w2: await ~envHolds;
        with (t \in IF Strict THEN {now} ELSE {now, clock}) {
-         if (tipChanged \/ t > tipTime + Twenty \/ (threshold # MaxMoney /\ mfees >= PrevFees + threshold)) {
+         if (tipChanged \/ t > tipTime + Twenty \/ (threshold # MaxMoney /\ WGe(mfees, WAdd(prevFees, WOf(threshold))))) {
            ret := [kind |-> "tmpl", parent |-> activeTip, fees |-> mfees];
            dec := [clock |-> clock, tipTime |-> tipTime, tip |-> activeTip];
            goto r0;
@@ -106,11 +123,11 @@ NoRet == [kind |-> "none", parent |-> 0, fees |-> 0]
        };
    w3: now := clock;
        if (now < deadline) { goto w1; }
-       else { ret := [kind |-> "null", parent |-> 0, fees |-> 0]; nullWhy := "timeout"; };
+       else { ret := [kind |-> "null", parent |-> 0, fees |-> WZero]; nullWhy := "timeout"; };
    r0: hist := Append(hist, Ev("R", IF ret.kind = "tmpl" THEN 1 ELSE 0, ret.parent, ret.fees));
        ncall := ncall + 1;
        if (ncall < Calls) { goto s0; }
-       else { outcome := <<[to |-> timeout, th |-> threshold, age |-> age, h |-> hist, p |-> pending.k]>>; };
+       else { outcome := <<[to |-> timeout, th |-> threshold, age |-> age, pf |-> prevFees, h |-> hist, p |-> pending.k]>>; };
   }
 
   fair process (driver = "d")
@@ -126,7 +143,7 @@ NoRet == [kind |-> "none", parent |-> 0, fees |-> 0]
              await activeTip = 1;
              envHolds := TRUE; activeTip := activeTip - 1; tipTime := 0 - age;
            } else if (o.k = "add") {
-             mfees := mfees + o.d;
+             mfees := WAdd(mfees, WOf(o.d));
            } else if (o.k = "int") {
              interrupt := TRUE; nInt := nInt + 1;
            } else {
@@ -138,20 +155,20 @@ NoRet == [kind |-> "none", parent |-> 0, fees |-> 0]
          tipNotified := activeTip;      \* blockTip notification, cs_main still held
    d2:   await outcome = <<>>; envHolds := FALSE;
    d3:   await outcome = <<>>;
-         hist := Append(hist, Ev(op.k, op.d, 0, 0)); pending := NoOp; nops := nops + 1;
+         hist := Append(hist, Ev(op.k, op.d, 0, WZero)); pending := NoOp; nops := nops + 1;
        };
   }
 } *)
 \* BEGIN TRANSLATION
-VARIABLES pc, timeout, threshold, age, ncall, clock, activeTip, tipTime, 
-          tipNotified, mfees, interrupt, envHolds, hist, pending, nops, ret, 
-          outcome, trig, nullWhy, nInt, deadlineG, dec, now, deadline, 
-          tipChanged, op
+VARIABLES pc, timeout, threshold, age, prevFees, ncall, clock, activeTip, 
+          tipTime, tipNotified, mfees, interrupt, envHolds, hist, pending, 
+          nops, ret, outcome, trig, nullWhy, nInt, deadlineG, dec, now, 
+          deadline, tipChanged, op
 
-vars == << pc, timeout, threshold, age, ncall, clock, activeTip, tipTime, 
-           tipNotified, mfees, interrupt, envHolds, hist, pending, nops, ret, 
-           outcome, trig, nullWhy, nInt, deadlineG, dec, now, deadline, 
-           tipChanged, op >>
+vars == << pc, timeout, threshold, age, prevFees, ncall, clock, activeTip, 
+           tipTime, tipNotified, mfees, interrupt, envHolds, hist, pending, 
+           nops, ret, outcome, trig, nullWhy, nInt, deadlineG, dec, now, 
+           deadline, tipChanged, op >>
 
 ProcSet == {"w"} \cup {"d"}
 
@@ -159,12 +176,13 @@ Init == (* Global variables *)
         /\ timeout \in Timeouts
         /\ threshold \in Thresholds
         /\ age \in Ages
+        /\ prevFees \in PrevFeeSet
         /\ ncall = 0
         /\ clock = 0
         /\ activeTip = 0
         /\ tipTime = 0 - age
         /\ tipNotified = 0
-        /\ mfees = PrevFees
+        /\ mfees = prevFees
         /\ interrupt = FALSE
         /\ envHolds = FALSE
         /\ hist = <<>>
@@ -187,25 +205,25 @@ Init == (* Global variables *)
                                         [] self = "d" -> "d0"]
 
 s0 == /\ pc["w"] = "s0"
-      /\ hist' = Append(hist, Ev("S", 0, 0, 0))
+      /\ hist' = Append(hist, Ev("S", 0, 0, WZero))
       /\ ret' = NoRet
       /\ nullWhy' = "none"
       /\ trig' = -1
       /\ pc' = [pc EXCEPT !["w"] = "w0"]
-      /\ UNCHANGED << timeout, threshold, age, ncall, clock, activeTip, 
-                      tipTime, tipNotified, mfees, interrupt, envHolds, 
-                      pending, nops, outcome, nInt, deadlineG, dec, now, 
-                      deadline, tipChanged, op >>
+      /\ UNCHANGED << timeout, threshold, age, prevFees, ncall, clock, 
+                      activeTip, tipTime, tipNotified, mfees, interrupt, 
+                      envHolds, pending, nops, outcome, nInt, deadlineG, dec, 
+                      now, deadline, tipChanged, op >>
 
 w0 == /\ pc["w"] = "w0"
       /\ now' = clock
       /\ deadline' = (IF timeout = Inf THEN Inf ELSE clock + timeout)
       /\ deadlineG' = deadline'
       /\ pc' = [pc EXCEPT !["w"] = "w1"]
-      /\ UNCHANGED << timeout, threshold, age, ncall, clock, activeTip, 
-                      tipTime, tipNotified, mfees, interrupt, envHolds, hist, 
-                      pending, nops, ret, outcome, trig, nullWhy, nInt, dec, 
-                      tipChanged, op >>
+      /\ UNCHANGED << timeout, threshold, age, prevFees, ncall, clock, 
+                      activeTip, tipTime, tipNotified, mfees, interrupt, 
+                      envHolds, hist, pending, nops, ret, outcome, trig, 
+                      nullWhy, nInt, dec, tipChanged, op >>
 
 w1 == /\ pc["w"] = "w1"
       /\ (~Strict) \/ tipNotified # 0 \/ interrupt \/ clock >= Min(now + TickLen, deadline)
@@ -214,41 +232,42 @@ w1 == /\ pc["w"] = "w1"
       /\ \E stop \in IF ~interrupt THEN {FALSE} ELSE IF Strict \/ tipNotified = 0 THEN {TRUE} ELSE {TRUE, FALSE}:
            IF stop
               THEN /\ interrupt' = FALSE
-                   /\ ret' = [kind |-> "null", parent |-> 0, fees |-> 0]
+                   /\ ret' = [kind |-> "null", parent |-> 0, fees |-> WZero]
                    /\ nullWhy' = "interrupt"
                    /\ pc' = [pc EXCEPT !["w"] = "r0"]
               ELSE /\ pc' = [pc EXCEPT !["w"] = "w2"]
                    /\ UNCHANGED << interrupt, ret, nullWhy >>
-      /\ UNCHANGED << timeout, threshold, age, ncall, clock, activeTip, 
-                      tipTime, tipNotified, mfees, envHolds, hist, pending, 
-                      nops, outcome, nInt, deadlineG, dec, now, deadline, op >>
+      /\ UNCHANGED << timeout, threshold, age, prevFees, ncall, clock, 
+                      activeTip, tipTime, tipNotified, mfees, envHolds, hist, 
+                      pending, nops, outcome, nInt, deadlineG, dec, now, 
+                      deadline, op >>
 
 w2 == /\ pc["w"] = "w2"
       /\ ~envHolds
       /\ \E t \in IF Strict THEN {now} ELSE {now, clock}:
-           IF tipChanged \/ t > tipTime + Twenty \/ (threshold # MaxMoney /\ mfees >= PrevFees + threshold)
+           IF tipChanged \/ t > tipTime + Twenty \/ (threshold # MaxMoney /\ WGe(mfees, WAdd(prevFees, WOf(threshold))))
               THEN /\ ret' = [kind |-> "tmpl", parent |-> activeTip, fees |-> mfees]
                    /\ dec' = [clock |-> clock, tipTime |-> tipTime, tip |-> activeTip]
                    /\ pc' = [pc EXCEPT !["w"] = "r0"]
               ELSE /\ pc' = [pc EXCEPT !["w"] = "w3"]
                    /\ UNCHANGED << ret, dec >>
-      /\ UNCHANGED << timeout, threshold, age, ncall, clock, activeTip, 
-                      tipTime, tipNotified, mfees, interrupt, envHolds, hist, 
-                      pending, nops, outcome, trig, nullWhy, nInt, deadlineG, 
-                      now, deadline, tipChanged, op >>
+      /\ UNCHANGED << timeout, threshold, age, prevFees, ncall, clock, 
+                      activeTip, tipTime, tipNotified, mfees, interrupt, 
+                      envHolds, hist, pending, nops, outcome, trig, nullWhy, 
+                      nInt, deadlineG, now, deadline, tipChanged, op >>
 
 w3 == /\ pc["w"] = "w3"
       /\ now' = clock
       /\ IF now' < deadline
             THEN /\ pc' = [pc EXCEPT !["w"] = "w1"]
                  /\ UNCHANGED << ret, nullWhy >>
-            ELSE /\ ret' = [kind |-> "null", parent |-> 0, fees |-> 0]
+            ELSE /\ ret' = [kind |-> "null", parent |-> 0, fees |-> WZero]
                  /\ nullWhy' = "timeout"
                  /\ pc' = [pc EXCEPT !["w"] = "r0"]
-      /\ UNCHANGED << timeout, threshold, age, ncall, clock, activeTip, 
-                      tipTime, tipNotified, mfees, interrupt, envHolds, hist, 
-                      pending, nops, outcome, trig, nInt, deadlineG, dec, 
-                      deadline, tipChanged, op >>
+      /\ UNCHANGED << timeout, threshold, age, prevFees, ncall, clock, 
+                      activeTip, tipTime, tipNotified, mfees, interrupt, 
+                      envHolds, hist, pending, nops, outcome, trig, nInt, 
+                      deadlineG, dec, deadline, tipChanged, op >>
 
 r0 == /\ pc["w"] = "r0"
       /\ hist' = Append(hist, Ev("R", IF ret.kind = "tmpl" THEN 1 ELSE 0, ret.parent, ret.fees))
@@ -256,12 +275,12 @@ r0 == /\ pc["w"] = "r0"
       /\ IF ncall' < Calls
             THEN /\ pc' = [pc EXCEPT !["w"] = "s0"]
                  /\ UNCHANGED outcome
-            ELSE /\ outcome' = <<[to |-> timeout, th |-> threshold, age |-> age, h |-> hist', p |-> pending.k]>>
+            ELSE /\ outcome' = <<[to |-> timeout, th |-> threshold, age |-> age, pf |-> prevFees, h |-> hist', p |-> pending.k]>>
                  /\ pc' = [pc EXCEPT !["w"] = "Done"]
-      /\ UNCHANGED << timeout, threshold, age, clock, activeTip, tipTime, 
-                      tipNotified, mfees, interrupt, envHolds, pending, nops, 
-                      ret, trig, nullWhy, nInt, deadlineG, dec, now, deadline, 
-                      tipChanged, op >>
+      /\ UNCHANGED << timeout, threshold, age, prevFees, clock, activeTip, 
+                      tipTime, tipNotified, mfees, interrupt, envHolds, 
+                      pending, nops, ret, trig, nullWhy, nInt, deadlineG, dec, 
+                      now, deadline, tipChanged, op >>
 
 waiter == s0 \/ w0 \/ w1 \/ w2 \/ w3 \/ r0
 
@@ -284,7 +303,7 @@ d0 == /\ pc["d"] = "d0"
                                             /\ UNCHANGED << clock, mfees, 
                                                             interrupt, nInt >>
                                        ELSE /\ IF o.k = "add"
-                                                  THEN /\ mfees' = mfees + o.d
+                                                  THEN /\ mfees' = WAdd(mfees, WOf(o.d))
                                                        /\ UNCHANGED << clock, 
                                                                        interrupt, 
                                                                        nInt >>
@@ -304,38 +323,38 @@ d0 == /\ pc["d"] = "d0"
             ELSE /\ pc' = [pc EXCEPT !["d"] = "Done"]
                  /\ UNCHANGED << clock, activeTip, tipTime, mfees, interrupt, 
                                  envHolds, pending, nInt, op >>
-      /\ UNCHANGED << timeout, threshold, age, ncall, tipNotified, hist, nops, 
-                      ret, outcome, trig, nullWhy, deadlineG, dec, now, 
-                      deadline, tipChanged >>
+      /\ UNCHANGED << timeout, threshold, age, prevFees, ncall, tipNotified, 
+                      hist, nops, ret, outcome, trig, nullWhy, deadlineG, dec, 
+                      now, deadline, tipChanged >>
 
 d1 == /\ pc["d"] = "d1"
       /\ outcome = <<>>
       /\ tipNotified' = activeTip
       /\ pc' = [pc EXCEPT !["d"] = "d2"]
-      /\ UNCHANGED << timeout, threshold, age, ncall, clock, activeTip, 
-                      tipTime, mfees, interrupt, envHolds, hist, pending, nops, 
-                      ret, outcome, trig, nullWhy, nInt, deadlineG, dec, now, 
-                      deadline, tipChanged, op >>
+      /\ UNCHANGED << timeout, threshold, age, prevFees, ncall, clock, 
+                      activeTip, tipTime, mfees, interrupt, envHolds, hist, 
+                      pending, nops, ret, outcome, trig, nullWhy, nInt, 
+                      deadlineG, dec, now, deadline, tipChanged, op >>
 
 d2 == /\ pc["d"] = "d2"
       /\ outcome = <<>>
       /\ envHolds' = FALSE
       /\ pc' = [pc EXCEPT !["d"] = "d3"]
-      /\ UNCHANGED << timeout, threshold, age, ncall, clock, activeTip, 
-                      tipTime, tipNotified, mfees, interrupt, hist, pending, 
-                      nops, ret, outcome, trig, nullWhy, nInt, deadlineG, dec, 
-                      now, deadline, tipChanged, op >>
+      /\ UNCHANGED << timeout, threshold, age, prevFees, ncall, clock, 
+                      activeTip, tipTime, tipNotified, mfees, interrupt, hist, 
+                      pending, nops, ret, outcome, trig, nullWhy, nInt, 
+                      deadlineG, dec, now, deadline, tipChanged, op >>
 
 d3 == /\ pc["d"] = "d3"
       /\ outcome = <<>>
-      /\ hist' = Append(hist, Ev(op.k, op.d, 0, 0))
+      /\ hist' = Append(hist, Ev(op.k, op.d, 0, WZero))
       /\ pending' = NoOp
       /\ nops' = nops + 1
       /\ pc' = [pc EXCEPT !["d"] = "d0"]
-      /\ UNCHANGED << timeout, threshold, age, ncall, clock, activeTip, 
-                      tipTime, tipNotified, mfees, interrupt, envHolds, ret, 
-                      outcome, trig, nullWhy, nInt, deadlineG, dec, now, 
-                      deadline, tipChanged, op >>
+      /\ UNCHANGED << timeout, threshold, age, prevFees, ncall, clock, 
+                      activeTip, tipTime, tipNotified, mfees, interrupt, 
+                      envHolds, ret, outcome, trig, nullWhy, nInt, deadlineG, 
+                      dec, now, deadline, tipChanged, op >>
 
 driver == d0 \/ d1 \/ d2 \/ d3
 
@@ -362,7 +381,7 @@ ParentIsCurrentTip == ret.kind = "tmpl" => ret.parent = dec.tip /\ ret.parent <=
 NeverOlderThanTrigger == ret.kind = "tmpl" => ret.parent >= trig
 \* same parent as the previous template: only with fees >= previous + threshold, or on a tip that is over 20 minutes old
 SameTipNeedsFees == (ret.kind = "tmpl" /\ ret.parent = 0) =>
-                       \/ (threshold # MaxMoney /\ ret.fees >= PrevFees + threshold)
+                       \/ (threshold # MaxMoney /\ WGe(ret.fees, WAdd(prevFees, WOf(threshold))))
                        \/ dec.clock > dec.tipTime + Twenty
 \* nothing is returned only after the timeout passed or after an interrupt
 NullOnlyAfterTimeoutOrInterrupt == ret.kind = "null" =>
